@@ -215,6 +215,50 @@ func compareTables(side string, depth int, exp, act map[string]string) []mismatc
 
 // ---------------------------------------------------------------------------------------------
 
+// tieRuns: fresh parse+derive runs of a document that has a case-only name tie.
+const tieRuns = 16
+
+func caseTie(d Doc) bool {
+	tie := func(names []string) bool {
+		seen := map[string]string{}
+		for _, n := range names {
+			l := strings.ToLower(n)
+			if o, ok := seen[l]; ok && o != n {
+				return true
+			}
+			seen[l] = n
+		}
+		return false
+	}
+	var ps, cs, ss []string
+	for _, p := range d.Placements {
+		ps = append(ps, p.Name)
+	}
+	for _, c := range d.Computes {
+		cs = append(cs, c.Name)
+	}
+	for _, s := range d.Services {
+		ss = append(ss, s.Name)
+	}
+	return tie(ps) || tie(cs) || tie(ss)
+}
+
+// expectedGroupOrder: the placements that are deployed to, in byte-wise ascending name order.
+func expectedGroupOrder(d Doc) []string {
+	set := map[string]bool{}
+	for _, e := range d.Deployment {
+		for _, a := range e.At {
+			set[a.Placement] = true
+		}
+	}
+	var out []string
+	for n := range set {
+		out = append(out, n)
+	}
+	sort.Strings(out)
+	return out
+}
+
 type docStats struct {
 	reads    int64
 	digest   [32]byte
@@ -416,12 +460,47 @@ func checkDoc(d Doc, kind string, permMode int, rep *imc.Reporter) docStats {
 	} else if f, ok := o1.equal(o1b); !ok {
 		viol("determinism/same-object/"+f, "deriving "+f+" twice from the same parsed document gives different results", nil, "")
 	}
-	_, o2, err := translate(base)
-	st.reads++
-	if err != nil {
-		viol("determinism/second-read-error", err.Error(), nil, "")
-	} else if f, ok := o1.equal(o2); !ok {
-		viol("determinism/two-runs/"+f, "two runs on the same text give different "+f, nil, "")
+	// fresh parses of the same text: 1 more, or tieRuns-1 more when two names of one map differ only
+	// in letter case (the order of such a pair must not be left to Go's randomised map iteration)
+	runs := 2
+	if caseTie(d) {
+		runs = tieRuns
+	}
+	for r := 1; r < runs; r++ {
+		_, o2, err := translate(base)
+		st.reads++
+		if err != nil {
+			viol("determinism/second-read-error", err.Error(), nil, "")
+			break
+		} else if f, ok := o1.equal(o2); !ok {
+			viol("determinism/two-runs/"+f, fmt.Sprintf("run %d on the same text gives different %s than run 1", r+1, f), nil, "")
+			break
+		}
+	}
+
+	// (a') the order of the outputs is the one fixed by the names alone: groups (=> GSeq) and
+	// manifest groups in byte-wise ascending placement name, services of a manifest group in
+	// byte-wise ascending service name
+	wantGroups := expectedGroupOrder(d)
+	var gotG, gotM []string
+	for _, g := range o1.groups {
+		gotG = append(gotG, g.Name)
+	}
+	for _, g := range o1.manifest {
+		gotM = append(gotM, g.Name)
+		var svcs []string
+		for _, s := range g.Services {
+			svcs = append(svcs, s.Name)
+		}
+		if !sort.StringsAreSorted(svcs) {
+			viol("order/manifest-services", fmt.Sprintf("services of manifest group %s are not in ascending name order: %q", g.Name, svcs), nil, "")
+		}
+	}
+	if strs(gotG) != strs(wantGroups) {
+		viol("order/groups", fmt.Sprintf("deployment groups come in order %q, byte-wise ascending names give %q", gotG, wantGroups), nil, "")
+	}
+	if strs(gotM) != strs(wantGroups) {
+		viol("order/manifest-groups", fmt.Sprintf("manifest groups come in order %q, byte-wise ascending names give %q", gotM, wantGroups), nil, "")
 	}
 
 	// (c) faithfulness
